@@ -1,6 +1,7 @@
 """C01 extras: the `program` dimension instantiated with the library's own layers, variables and arguments given as *writable numpy
 arrays* (the only leaves an in-place `x *= y` inside a layer can damage: jax arrays are immutable). LinenScope's InputsUnchanged and
 Repeatable are evaluated on every layer x mutable filter x repetition."""
+import functools
 import numpy as np
 import jax
 import jax.numpy as jnp
@@ -146,3 +147,64 @@ _run_layers = run
 def run(chk):
   _run_layers(chk)
   dict_valued_variable_probe(chk)
+
+
+def lifted_write_probe(chk):
+  """A write to a collection that `mutable` does not select raises - also when the writing module sits behind a lifted view
+  (read-only / read-write identity nn.map_variables, nn.remat, nn.jit) and whatever form the filter has."""
+  from flax import errors
+
+  class Writer(nn.Module):
+    same: bool = False      # assign the stored object back (running maximum that did not change, v.value = v.value): still a write
+
+    @nn.compact
+    def __call__(self, x):
+      w = self.param('w', lambda k: jnp.ones(()))
+      n = self.variable('state', 'n', lambda: jnp.zeros(()))
+      if not self.is_initializing():
+        n.value = n.value if self.same else n.value + 1.0
+      return x * w * (n.value + (1.0 if self.same else 0.0))
+  ident = lambda v: v
+  views = {'plain': Writer, 'map_variables(params, read-only)': nn.map_variables(Writer, 'params', ident),
+           'map_variables(unused, read-only)': nn.map_variables(Writer, 'unused', ident),
+           'map_variables(state, read-write)': nn.map_variables(Writer, 'state', ident, ident, mutable=True),
+           'remat': nn.remat(Writer), 'jit': nn.jit(Writer), 'plain, same object assigned back': functools.partial(Writer, same=True)}
+
+  class Outer(nn.Module):
+    view: str
+
+    @nn.compact
+    def __call__(self, x):
+      return views[self.view](name='inner')(x)
+  x = jnp.ones((2,))
+  variables = Outer('plain').init(jax.random.key(0), x)
+  from flax.core.scope import DenyList
+  for view in views:
+    for mname, mutable, allowed in (('False', False, False), ("['params']", ['params'], False), ("'other'", 'other', False),
+                                    ("DenyList('state')", DenyList('state'), False), ("['state']", ['state'], True), ('True', True, True)):
+      key = f'C01:write-behind-lifted-view:{view}:mutable={mname}'
+      chk.count(key)
+      before = _snap(variables)
+      try:
+        out = Outer(view).apply(variables, x, mutable=mutable)
+        raised = False
+      except errors.ModifyScopeVariableError:
+        raised = True
+      except Exception as e:
+        chk.violation(key, f'raised {type(e).__name__}: {str(e)[:160]}', {})
+        continue
+      if raised == allowed:
+        chk.violation(key, ('the write was rejected although the collection is mutable' if raised else
+                            'a write to a collection that `mutable` does not select did not raise (it took effect inside the call and was dropped)'), {})
+      elif allowed and float(out[1]['state']['inner']['n']) != (0.0 if 'same object' in view else 1.0):
+        chk.violation(key, f'returned state {out[1]}', {})
+      if _snap(variables) != before:
+        chk.violation(key, 'the variables passed in were modified', {})
+
+
+_run2 = run
+
+
+def run(chk):
+  _run2(chk)
+  lifted_write_probe(chk)
